@@ -29,9 +29,10 @@ class Stop(Exception):
 class Raised(Exception):
     """the evaluated code executed a ``raise`` statement (``what`` = source text of the raised expression)"""
 
-    def __init__(self, what):
+    def __init__(self, what, value=None):
         Exception.__init__(self, what)
         self.what = what
+        self.value = value          # an ExcVal when the raised expression evaluated to one (rule supplied exception model)
 
 
 class NativeError(Exception):
@@ -40,6 +41,27 @@ class NativeError(Exception):
 
 class _Break(Exception):
     pass
+
+
+class ExcVal:
+    """an exception *object* built by the evaluated code (``NotEnoughData(n)``): rules that care about the arguments let
+    their hook build one (exception_values) - a raise of such an object carries it in Raised.value"""
+
+    def __init__(self, name, *args, **kwargs):
+        self.name, self.args, self.kwargs = name, args, kwargs
+
+    def __repr__(self):
+        return '%s(%s)' % (self.name, ', '.join([repr(a) for a in self.args] + ['%s=%r' % kv for kv in sorted(self.kwargs.items())]))
+
+
+def exception_values(*names):
+    """hook fragment: calls of the named exception classes evaluate to ExcVal objects"""
+    def hook(n, ev):
+        d = ast.unparse(n.func).split('.')[-1]
+        if d in names and isinstance(n.func, (ast.Name, ast.Attribute)):
+            return ExcVal(d, *[ev.ev(a) for a in n.args], **{k.arg: ev.ev(k.value) for k in n.keywords if k.arg})
+        return NotImplemented
+    return hook
 
 
 class _Continue(Exception):
@@ -65,7 +87,7 @@ METHODS = {(int, 'bit_length'), (bytes, 'lstrip'), (bytes, 'rstrip'), (bytearray
            (bytes, 'decode'), (bytes, 'hex'), (str, 'format')}
 for _m in ('items', 'keys', 'values', 'get', 'pop', 'setdefault'):
     METHODS.add((dict, _m))
-for _m in ('insert', 'extend', 'clear', 'reverse', 'pop', 'remove', 'index', 'count', 'copy'):
+for _m in ('insert', 'extend', 'clear', 'reverse', 'pop', 'remove', 'index', 'count', 'copy', 'sort'):
     METHODS.add((list, _m))
 BUILTINS['next'] = next
 BUILTINS['object'] = lambda: Obj(sentinel=True)
@@ -116,6 +138,13 @@ DOTTED_CALLS = {'functools.reduce': _reduce, 'six.iterbytes': lambda b: list(byt
                 'six.ensure_str': _ensure_text, 'six.b': lambda s: s.encode('latin-1'), 'six.u': lambda s: s,
                 'six.text_type': str, 'six.binary_type': bytes}
 import collections as _collections
+import re as _re
+# regular expressions are evaluated by the standard library's own engine (pattern text from the evaluated code)
+DOTTED_CALLS['re.compile'] = _re.compile
+for _m in ('match', 'search', 'fullmatch', 'findall', 'sub', 'split'):
+    METHODS.add((_re.Pattern, _m))
+for _m in ('group', 'groups', 'groupdict', 'start', 'end', 'span'):
+    METHODS.add((_re.Match, _m))
 DOTTED_CALLS['collections.OrderedDict'] = _collections.OrderedDict
 TYPE_VALUES = {'slice': slice, 'int': int, 'str': str, 'bytes': bytes, 'bytearray': bytearray, 'bool': bool, 'list': list, 'tuple': tuple, 'dict': dict, 'set': set}
 
@@ -130,6 +159,7 @@ def _getattr(obj, name, *default):
 BUILTINS['getattr'] = _getattr
 METHODS.add((set, 'add'))
 BUILTINS['sorted'] = sorted
+BUILTINS['len'] = len
 BUILTINS['any'] = any
 BUILTINS['all'] = all
 for _t in (str, bytes, bytearray):
@@ -171,9 +201,12 @@ class Evaluator:
                         pass
                 return defaults(name)
             both.with_defaults = True
+            both.own = own
             self.name_hook = both
         self.steps = 0
-        self.owner = None       # class whose method is being evaluated (set by function()): source of self.X / cls.X constants
+        # class whose method is being evaluated: source of self.X / cls.X constants.  A class hook names the class the
+        # evaluation is about (a subclass overriding a constant of the defining class wins); else set by function()
+        self.owner = getattr(hook, 'owner_class', None)
 
     # -- expressions ----------------------------------------------------------------
     def ev(self, n):
@@ -252,6 +285,20 @@ class Evaluator:
                 raise Unsupported('%s: %s' % (ast.unparse(n), e))
         if isinstance(n, ast.Call):
             return self.call(n)
+        if isinstance(n, ast.Lambda):
+            # a function value closing over the current environment (sort keys, small predicates)
+            params = [a.arg for a in n.args.args]
+            if n.args.vararg or n.args.kwarg or n.args.kwonlyargs or n.args.defaults:
+                raise Unsupported('lambda with defaults / star parameters')
+            outer = self
+
+            def fn(*args):
+                if len(args) != len(params):
+                    raise Unsupported('lambda called with %d arguments' % len(args))
+                sub = Evaluator(dict(outer.env, **dict(zip(params, args))), outer.hook, outer.name_hook)
+                sub.owner = outer.owner
+                return sub.ev(n.body)
+            return fn
         if isinstance(n, ast.ListComp):
             return self.comprehension(n, 0, [])
         if isinstance(n, ast.GeneratorExp):
@@ -313,7 +360,13 @@ class Evaluator:
                 return r
         if ast.unparse(n.func) == 'six.raise_from' and n.args:
             # six.raise_from(X, cause): a raise statement in function form
-            raise Raised(ast.unparse(n.args[0]))
+            raise self.raised(n.args[0])
+        if isinstance(n.func, ast.Name) and n.func.id == 'isinstance' and len(n.args) == 2 and 'isinstance' not in self.env:
+            first = self.ev(n.args[0])
+            names = getattr(first, '_exception_names', None)
+            if names is not None:
+                ts = n.args[1].elts if isinstance(n.args[1], ast.Tuple) else [n.args[1]]
+                return any(ast.unparse(t).split('.')[-1] in names for t in ts)
         args = [self.ev(a) for a in n.args]
         kwargs = {k.arg: self.ev(k.value) for k in n.keywords}
         d = ast.unparse(n.func)
@@ -356,6 +409,31 @@ class Evaluator:
             if callable(fv):
                 return fv(*args, **kwargs)
         raise Unsupported('call %s' % ast.unparse(n)[:60])
+
+    def raised(self, exc_node):
+        """the Raised for ``raise <exc_node>``: by the source text of the expression, plus its value when the expression is a
+        name bound to / a call evaluating to an exception model (ExcVal)"""
+        val = None
+        if isinstance(exc_node, ast.Name) and isinstance(self.env.get(exc_node.id), ExcVal):
+            val = self.env[exc_node.id]
+        elif isinstance(exc_node, ast.Call) and self.hook is not None:
+            callee = exc_node.func
+            last = callee.id if isinstance(callee, ast.Name) else (callee.attr if isinstance(callee, ast.Attribute) else '')
+            if last[:1].isupper():
+                try:
+                    r = self.hook(exc_node, self)
+                except Unsupported:
+                    r = NotImplemented
+            else:
+                # the exception object is computed by a helper: its value decides what is raised
+                r = self.ev(exc_node)
+                if not isinstance(r, ExcVal):
+                    raise Unsupported('raise of a computed value that is not an exception model: %s' % ast.unparse(exc_node)[:60])
+            if isinstance(r, ExcVal):
+                val = r
+        if val is not None:
+            return Raised(repr(val), val)
+        return Raised(ast.unparse(exc_node))
 
     # -- statements -----------------------------------------------------------------
     def assign(self, t, v):
@@ -439,7 +517,7 @@ class Evaluator:
             elif isinstance(st, ast.Continue):
                 raise _Continue()
             elif isinstance(st, ast.Raise):
-                raise Raised(ast.unparse(st.exc) if st.exc is not None else 're-raise')
+                raise (self.raised(st.exc) if st.exc is not None else Raised('re-raise'))
             elif isinstance(st, ast.Return):
                 raise _Return(self.ev(st.value) if st.value is not None else None)
             elif isinstance(st, ast.Expr):
@@ -454,9 +532,17 @@ class Evaluator:
                         self.env.pop(t.id, None)
                     elif isinstance(t, ast.Subscript) and not isinstance(t.slice, ast.Slice):
                         base = self.ev(t.value)
-                        if not isinstance(base, (dict, list, Native)):
+                        if not isinstance(base, (dict, list, bytearray, Native)):
                             raise Unsupported('item deletion on %s' % type(base).__name__)
                         del base[self.ev(t.slice)]
+                    elif isinstance(t, ast.Subscript):
+                        base = self.ev(t.value)
+                        if not isinstance(base, (list, bytearray)):
+                            raise Unsupported('slice deletion on %s' % type(base).__name__)
+                        lo, hi, step = (None if x is None else self.ev(x) for x in (t.slice.lower, t.slice.upper, t.slice.step))
+                        if not all(x is None or (isinstance(x, int) and not isinstance(x, bool)) for x in (lo, hi, step)):
+                            raise Unsupported('slice deletion with a bound that is not an integer')
+                        del base[slice(lo, hi, step)]
                     else:
                         raise Unsupported('del %s' % ast.unparse(t))
             else:
@@ -477,11 +563,19 @@ class Evaluator:
                 self.run(st.body)
             except (Raised,) + self.NATIVE_ERRORS as e:
                 name = e.what.split('(')[0].split('.')[-1] if isinstance(e, Raised) else type(e).__name__
+                # a python exception raised by a builtin is caught by the names of its base classes as well
+                # (UnicodeDecodeError by ``except UnicodeError`` / ``except ValueError``)
+                bases = {name} if isinstance(e, (Raised, NativeError)) else {k.__name__ for k in type(e).__mro__}
+                if isinstance(e, Raised) and getattr(e.value, 'bases', None):
+                    bases = set(e.value.bases)
                 for h in st.handlers:
                     names = handler_names(h)
-                    if names is None or name in names or 'Exception' in names or 'BaseException' in names:
+                    if names is None or (names & bases) or 'Exception' in names or 'BaseException' in names:
                         if h.name:
-                            self.env[h.name] = Obj(args=tuple(getattr(e, 'args', ())), what=str(e))
+                            eargs = e.value.args if isinstance(e, Raised) and isinstance(e.value, ExcVal) else getattr(e, 'args', ())
+                            caught = Obj(args=tuple(eargs), what=str(e))
+                            caught._exception_names = set(bases) | {'Exception', 'BaseException'}
+                            self.env[h.name] = caught
                         self.run(h.body)
                         break
                 else:
@@ -501,7 +595,11 @@ class Evaluator:
         except _Return as r:
             return r.value
         except self.NATIVE_ERRORS as e:
-            raise Raised('%s(%s)' % (type(e).__name__, e))
+            # leaves the function as a raise of that exception: the arguments stay available to a handler further out
+            val = ExcVal(type(e).__name__, *getattr(e, 'args', ()))
+            if not isinstance(e, NativeError):
+                val.bases = {k.__name__ for k in type(e).__mro__}
+            raise Raised('%s(%s)' % (type(e).__name__, e), val)
         return None
 
 
@@ -571,10 +669,19 @@ def class_call_hook(cls, extra=None, model=None):
         if first is not None and bound is not None:
             env[first] = bound
         sub = Evaluator(env, make(owner, m.module), name_hook_for(m.module, ev.name_hook))
+        if first is not None and hasattr(owner, 'resolve_var'):
+            sub.owner = owner       # constants reached through self / cls are looked up from the class the call went through
         return sub.function(m.node)
 
     def name_hook_for(module, outer):
         def nh(name):
+            rule_names = getattr(outer, 'own', None) if getattr(outer, 'with_defaults', False) else outer
+            if rule_names is not None:
+                # the names the rule models itself come first (a library class the rule replaces by a model object)
+                try:
+                    return rule_names(name)
+                except Unsupported:
+                    pass
             if model is not None and '.' not in name:
                 r = model.resolve_name(module, name)
                 if r is not None and hasattr(r, 'mro') and hasattr(r, 'resolve'):
@@ -612,6 +719,7 @@ def class_call_hook(cls, extra=None, model=None):
                     return EnumVal.of(r, parts[1])
             raise Unsupported('free name %s' % name)
         nh.with_defaults = True
+        nh.own = getattr(outer, 'own', None) if getattr(outer, 'with_defaults', False) else outer
         return nh
 
     def make(owner, module):
@@ -655,6 +763,7 @@ def class_call_hook(cls, extra=None, model=None):
                         and not getattr(r.module, 'external', False):
                     return call_method(owner, r, n, ev, None)
             return NotImplemented
+        hook.owner_class = owner if hasattr(owner, 'resolve_var') else None
         return hook
     top = make(cls, cls.module)
     top.name_hook_for = name_hook_for
